@@ -214,7 +214,7 @@ func c20GenState(t *rapid.T, shape *c20Shape) *c20State {
 		for j, o := range w.Origins {
 			ds := []string{"wrongkey", "renamed", "truncated", "ckpt-missing"}
 			if o.Mirrored {
-				ds = append(ds, "m-wrongkey", "m-renamed", "m-truncated", "m-ckpt-missing", "pending-missing")
+				ds = append(ds, "m-wrongkey", "m-renamed", "m-truncated", "m-ckpt-missing", "pending-missing", "pending-other-origin")
 				if o.MirrorSize >= 1 {
 					ds = append(ds, "ahead", "edge-missing", "edge-corrupt")
 				}
@@ -303,14 +303,17 @@ func c20Expected(st *c20State) *c20Expect {
 			ex.Mirror[w.Short] = me
 		}
 		for _, o := range w.Origins {
-			pendingBroken := c20Has(o.Defects, "wrongkey", "renamed", "truncated", "ckpt-missing", "pending-missing")
+			pendingBroken := c20Has(o.Defects, "wrongkey", "renamed", "truncated", "ckpt-missing", "pending-missing", "pending-other-origin")
 			if !c20Has(o.Defects, "pending-missing") {
 				dir := c19OriginHash(o.Origin)
 				if c20Has(o.Defects, "renamed") {
 					dir = c20RenamedHash(o.Origin)
 				}
-				we.Dirs[dir] = !c20Has(o.Defects, "wrongkey", "renamed", "truncated", "ckpt-missing")
+				we.Dirs[dir] = !c20Has(o.Defects, "wrongkey", "renamed", "truncated", "ckpt-missing", "pending-other-origin")
 				we.Origin[dir] = o.Origin
+				if c20Has(o.Defects, "pending-other-origin") {
+					we.Origin[dir] = o.Origin + ".alt"
+				}
 			}
 			if o.Mirrored {
 				dir := c19OriginHash(o.Origin)
@@ -494,6 +497,9 @@ func c20MaterializeWitness(w c20WitSpec, dir string, r *rand.Rand) error {
 			cos = [][]note.Signer{{foreign.S1}, {foreign.S1, foreign.S2}, {}}[d.Variant%3]
 		}
 		wcp := c19CosignedCheckpoint(o.Origin, ls, pend, root, cos...)
+		if c20Has(o.Defects, "pending-other-origin") { // a valid cosigned checkpoint of another log under this log's hash
+			wcp = c19CosignedCheckpoint(o.Origin+".alt", c19LogNoteSigner(o.Origin+".alt"), pend, root, cos...)
+		}
 		if d, ok := c20Get(o.Defects, "truncated"); ok {
 			wcp = c20Truncate(wcp, d.Variant)
 		}
